@@ -8,6 +8,7 @@ import Cascette.Model.Encoding
 import Cascette.Model.ArchiveIndex
 import Cascette.Model.RootFile
 import Cascette.Model.TvfsPath
+import Cascette.Model.TvfsTables
 import Cascette.Model.Jenkins
 import Cascette.Model.Resolver
 open Cascette Drv
@@ -29,14 +30,18 @@ structure St where
   idx : Option (Paged.Chunked ArchiveIndex.Entry) := none
   gents : List ArchiveIndex.GEntry := []
   grp : Option (List ArchiveIndex.GEntry) := none
+  -- merged archive group: sources (archive number, entries) newest first, entries newest first
+  srpb : Nat := 170
+  msrcs : List (Nat × List ArchiveIndex.Entry) := []
   -- root
   rver : RootFile.Version := .v1
   rrecs : List (Nat × Nat × RootFile.Rec) := []
   root : Option RootFile.Parsed := none
   -- tvfs
   tflags : Nat := 1
+  tspecs : List (List Nat) := []
   tfiles : List TvfsPath.FileRec := []
-  tvfs : Option TvfsPath.Built := none
+  tvfs : Option TvfsTables.Built := none
   -- resolver chain
   presecs : List (Nat × List Nat × List Nat × Nat × Nat) := []
   res : Option (RootFile.Parsed × Encoding.File) := none
@@ -106,6 +111,10 @@ def step (s : St) (toks : List String) : St × String :=
     match rpb.toNat? with
     | some rpb => if rpb = 0 then ({}, "bad-op") else ({ mode := "grp", rpb := rpb }, "ok")
     | none => ({}, "bad-op")
+  | ["begin", "grpm", rpb, srpb] =>
+    match rpb.toNat?, srpb.toNat? with
+    | some rpb, some srpb => if rpb = 0 ∨ srpb = 0 then ({}, "bad-op") else ({ mode := "grpm", rpb := rpb, srpb := srpb }, "ok")
+    | _, _ => ({}, "bad-op")
   | ["begin", "root", v] =>
     match v.toNat?.bind verOf with
     | some v => ({ mode := "root", rver := v }, "ok")
@@ -116,7 +125,7 @@ def step (s : St) (toks : List String) : St × String :=
     | none => ({}, "bad-op")
   | ["begin", "tvfs", fl] =>
     match fl.toNat? with
-    | some fl => if fl > 1 then ({}, "bad-op") else ({ mode := "tvfs", tflags := fl }, "ok")
+    | some fl => if fl > 7 then ({}, "bad-op") else ({ mode := "tvfs", tflags := fl }, "ok")
     | none => ({}, "bad-op")
   | ["hdr", kind, little, a, b, c, d, e] =>
     match a.toNat?, b.toNat?, c.toNat?, d.toNat?, e.toNat? with
@@ -251,6 +260,38 @@ def step (s : St) (toks : List String) : St × String :=
           | some e => s!"{e.archive} {e.offset} {e.size}"
           | none => "none")
     | _ => (s, "bad-op")
+  else if s.mode == "grpm" then
+    match toks with
+    | ["a", a] =>
+      match a.toNat? with
+      | some a => if a ≥ 65536 ∨ s.built then (s, "bad-op") else ({ s with msrcs := (a, []) :: s.msrcs }, "ok")
+      | none => (s, "bad-op")
+    | ["e", k, sz, off] =>
+      match parseHexNat k, sz.toNat?, off.toNat?, s.msrcs with
+      | some k, some sz, some off, (a, es) :: rest =>
+        if k.length ≠ 16 ∨ s.built ∨ sz ≥ 4294967296 ∨ off ≥ 4294967296 then (s, "bad-op")
+        else ({ s with msrcs := (a, { key := k, size := sz, offset := off, archive := none } :: es) :: rest }, "ok")
+      | _, _, _, _ => (s, "bad-op")
+    | ["build"] =>
+      -- every source: ArchiveIndexBuilder::new (16-byte keys, 4-byte offsets) → bytes → parse
+      let parsed : List (Option ArchiveIndex.Src) := s.msrcs.reverse.map fun (a, es) =>
+        (ArchiveIndex.buildParse 16 4 s.srpb es.reverse).map fun (c : Paged.Chunked ArchiveIndex.Entry) => (a, c.entries)
+      match parsed.mapM id with
+      | none => ({ s with grp := none, built := true }, "err:parse-src")
+      | some srcs =>
+        match ArchiveIndex.mergedBuildParse s.rpb srcs, ArchiveIndex.addArchivesBuildParse s.rpb srcs with
+        | some g, some g' =>
+          ({ s with grp := some g, built := true },
+            s!"ok n={g.length} same={if g == g' then 1 else 0} src=" ++ "+".intercalate (srcs.map fun (x : ArchiveIndex.Src) => toString x.2.length))
+        | _, _ => ({ s with grp := none, built := true }, "err:parse")
+    | ["f", arg] =>
+      match s.grp, parseHexNat arg with
+      | none, _ => (s, if s.built then "err:nofile" else "bad-op")
+      | some _, none => (s, "bad-op")
+      | some g, some k => (s, match ArchiveIndex.groupFind g k with
+          | some e => s!"{e.archive} {e.offset} {e.size}"
+          | none => "none")
+    | _ => (s, "bad-op")
   else if s.mode == "root" then
     match toks with
     | [op, fd, ck, nh, loc, cf] =>
@@ -324,23 +365,39 @@ def step (s : St) (toks : List String) : St × String :=
     | _ => (s, "bad-op")
   else if s.mode == "tvfs" then
     match toks with
-    | ["t", p, ek, es, cs, ck] =>
-      match parseHexNat p, parseHexNat ek, es.toNat?, cs.toNat?, optHex ck with
-      | some p, some ek, some es, some cs, some ck =>
-        if ek.length ≠ 9 ∨ (ck.any (·.length != 16)) ∨ s.built then (s, "bad-op")
-        else ({ s with tfiles := { path := p, ekey := ek, esize := es, csize := cs, ckey := ck } :: s.tfiles }, "ok")
-      | _, _, _, _, _ => (s, "bad-op")
+    | ["s", spec] =>
+      match parseHexNat spec with
+      | some sp => if sp.isEmpty ∨ sp.any (fun b => b ≥ 128 ∨ b = 0) ∨ s.built then (s, "bad-op") else ({ s with tspecs := sp :: s.tspecs }, "ok")
+      | none => (s, "bad-op")
+    | op :: p :: ek :: es :: cs :: ck :: rest =>
+      let est? : Option (Option Nat) :=
+        match op, rest with
+        | "t", [] => some none
+        | "te", [e] => (e.toNat?.bind fun e => if e < 4294967296 then some e else none).map some
+        | _, _ => none
+      match parseHexNat p, parseHexNat ek, es.toNat?, cs.toNat?, optHex ck, est? with
+      | some p, some ek, some es, some cs, some ck, some est =>
+        if ek.length ≠ 9 ∨ (ck.any (·.length != 16)) ∨ s.built ∨ es ≥ 4294967296 ∨ cs ≥ 4294967296 then (s, "bad-op")
+        else ({ s with tfiles := { path := p, ekey := ek, esize := es, csize := cs, ckey := ck, est := est } :: s.tfiles }, "ok")
+      | _, _, _, _, _, _ => (s, "bad-op")
     | ["build"] =>
-      match TvfsPath.buildParse s.tflags s.tfiles.reverse with
-      | .ok b => ({ s with tvfs := some b, built := true }, s!"ok files={b.files.length}")
-      | .error .trunc => ({ s with built := true }, "err:path-trunc")
-      | .error .node => ({ s with built := true }, "err:path-node")
+      match TvfsTables.buildParse s.tflags s.tspecs.reverse s.tfiles.reverse with
+      | .ok b => ({ s with tvfs := some b, built := true }, s!"ok files={b.files.length} vfs={b.vfs.length} cft={b.cft.length}")
+      | .error (.path .trunc) => ({ s with built := true }, "err:path-trunc")
+      | .error (.path .node) => ({ s with built := true }, "err:path-node")
+      | .error .vfs => ({ s with built := true }, "err:vfs-trunc")
+    | ["specs"] =>
+      match s.tvfs with
+      | none => (s, if s.built then "err:nofile" else "bad-op")
+      | some b => (s, joinOr (b.est.map hx) ",")
     | ["p", arg] =>
       match s.tvfs, parseHexNat arg with
       | none, _ => (s, if s.built then "err:nofile" else "bad-op")
       | some _, none => (s, "bad-op")
-      | some b, some path => (s, match b.resolve path with
-          | some f => s!"{hx f.ekey} {f.esize} " ++ (match f.ckey with | some c => hx c | none => "-")
+      | some b, some path =>
+        let num (x : Option Nat) : String := match x with | some v => toString v | none => "-"
+        (s, match b.resolve path with
+          | some e => s!"{hx e.ekey} {e.esize} " ++ (match e.ckey with | some c => hx c | none => "-") ++ s!" {num e.est} {num e.patch}"
           | none => "none")
     | _ => (s, "bad-op")
   else if s.mode == "res" then
